@@ -46,6 +46,26 @@ def convert_mpf_(x, prec, rounding):
     raise NotImplementedError
 
 
+# Every interval context has number classes of its own, which pickle cannot
+# find by name: the numbers of the global iv context are rebuilt through it
+def _iv_number(kind, v):
+    import mpmath
+    if kind == 'mpf':
+        return mpmath.iv.make_mpf(v)
+    return mpmath.iv.make_mpc(v)
+
+def _iv_constant(name):
+    import mpmath
+    return getattr(mpmath.iv, name)
+
+def _iv_reduce(x, kind, v):
+    import mpmath
+    if getattr(mpmath, 'iv', None) is not x.ctx:
+        import pickle
+        raise pickle.PicklingError("Can't pickle %r: it is not a number "
+            "of the global interval context" % (x,))
+    return (_iv_number, (kind, v))
+
 class ivmpf(object):
     """
     Interval arithmetic class. Precision is controlled by iv.prec.
@@ -68,6 +88,9 @@ class ivmpf(object):
 
     def __complex__(self):
         return self.cast(complex, libmp.to_float)
+
+    def __reduce__(self):
+        return _iv_reduce(self, 'mpf', self._mpi_)
 
     def __hash__(self):
         a, b = self._mpi_
@@ -213,6 +236,9 @@ class ivmpc(object):
         y._mpci_ = re._mpi_, im._mpi_
         return y
 
+    def __reduce__(self):
+        return _iv_reduce(self, 'mpc', self._mpci_)
+
     def __hash__(self):
         (a, b), (c,d) = self._mpci_
         if a == b and c == d:
@@ -357,6 +383,19 @@ class ivmpf_constant(ivmpf):
         b = self._f(prec, round_ceiling)
         return a, b
     _mpi_ = property(_get_mpi_)
+    # (an immutable object of its context, copied by reference and pickled
+    # by the name it has there)
+    def __copy__(self):
+        return self
+    def __deepcopy__(self, memo):
+        return self
+    def __reduce__(self):
+        import mpmath
+        if getattr(mpmath, 'iv', None) is self.ctx:
+            for name, value in self.ctx.__dict__.items():
+                if value is self:
+                    return (_iv_constant, (name,))
+        return ivmpf.__reduce__(self)
 
 class MPIntervalContext(StandardBaseContext):
 
